@@ -24,13 +24,14 @@ import (
 
 // c19Scn is one application scenario (the "inputs" quantifier of C19).
 type c19Scn struct {
-	Streams string `json:"streams"` // uni1 | bidi1 | uni3
-	Bytes   int    `json:"bytes"`   // bytes per direction of the first stream (others derive from it)
-	WChunk  int    `json:"wchunk"`  // bytes per Write call, 0 = everything in one call
-	Flush   string `json:"flush"`   // each | end | none
-	RChunk  int    `json:"rchunk"`  // Read buffer size, 0 = 16 KiB
-	Buf     int    `json:"buf"`     // 0 = default buffers, else MaxStream{Write,Read}BufferSize = MaxConnReadBufferSize = Buf on both sides
-	Pause   bool   `json:"pause"`   // flush after the last write and wait 50 ms (fake) before closing: the FIN travels in a frame of its own
+	Streams string `json:"streams"`           // uni1 | bidi1 | uni3
+	Bytes   int    `json:"bytes"`             // bytes per direction of the first stream (others derive from it)
+	WChunk  int    `json:"wchunk"`            // bytes per Write call, 0 = everything in one call
+	Flush   string `json:"flush"`             // each | end | none
+	RChunk  int    `json:"rchunk"`            // Read buffer size, 0 = 16 KiB
+	Buf     int    `json:"buf"`               // 0 = default buffers, else MaxStream{Write,Read}BufferSize = MaxConnReadBufferSize = Buf on both sides
+	Pause   bool   `json:"pause"`             // flush after the last write and wait 50 ms (fake) before closing: the FIN travels in a frame of its own
+	ConnDef bool   `json:"conndef,omitempty"` // with Buf > 0: MaxConnReadBufferSize stays at its default, so the stream window (MAX_STREAM_DATA) is the only credit the writer waits for
 }
 
 type c19Case struct {
@@ -59,7 +60,6 @@ func c19Size(sc c19Scn, id int64) int {
 		return sc.Bytes/3 + 2
 	}
 }
-
 
 // c19ErrClass maps an error to a coarse class for signatures.
 func c19ErrClass(err error) string {
@@ -246,7 +246,9 @@ func c19Bubble(r *c19Run, cs c19Case) {
 	if sc.Buf > 0 {
 		conf.MaxStreamWriteBufferSize = int64(sc.Buf)
 		conf.MaxStreamReadBufferSize = int64(sc.Buf)
-		conf.MaxConnReadBufferSize = int64(sc.Buf)
+		if !sc.ConnDef {
+			conf.MaxConnReadBufferSize = int64(sc.Buf)
+		}
 	}
 	start := time.Now()
 	p := c19NewPair(cs.Devs, conf, conf)
@@ -451,6 +453,30 @@ func c19QuickScenariosForDebug() []c19Scn {
 
 func c19Scenarios(c *vx.Ctx) (all []c19Scn, small []c19Scn) { return c19ScenariosTier(c.Quick()) }
 
+// c19WindowScenarios: the stream receive window (512) is the only credit the
+// writer ever waits for (connection window at its default) and the transfer
+// is longer than two windows, so the reader issues a chain of
+// MAX_STREAM_DATA updates each of which the writer needs before it can go
+// on; once with a reader that drains a whole window per Read, once with a
+// reader that consumes in steps of 100. These get the two-deviation bound in
+// every tier: the receive-side credit path needs a deviation on each
+// direction (or two on the reverse path: an ACK / MAX_STREAM_DATA packet and
+// a later one) before a lost update matters.
+func c19WindowScenarios(quick bool) []c19Scn {
+	w := []c19Scn{
+		{Streams: "uni1", Bytes: 1200, Flush: "none", Buf: 512, ConnDef: true},
+		{Streams: "uni1", Bytes: 1200, Flush: "none", RChunk: 100, Buf: 512, ConnDef: true},
+	}
+	if !quick {
+		w = append(w,
+			c19Scn{Streams: "uni1", Bytes: 1100, WChunk: 100, Flush: "each", RChunk: 100, Buf: 512, ConnDef: true},
+			c19Scn{Streams: "bidi1", Bytes: 1200, Flush: "none", Buf: 512, ConnDef: true},
+			c19Scn{Streams: "uni1", Bytes: 2100, Flush: "none", Buf: 512, ConnDef: true},
+		)
+	}
+	return w
+}
+
 func c19ScenariosTier(quick bool) (all []c19Scn, small []c19Scn) {
 	// The smallest scenarios get the deeper deviation bound.
 	small = []c19Scn{
@@ -480,6 +506,9 @@ func c19ScenariosTier(quick bool) (all []c19Scn, small []c19Scn) {
 	add(c19Scn{Streams: "uni1", Bytes: 100, Flush: "none", Pause: true})
 	add(c19Scn{Streams: "uni3", Bytes: 1200, WChunk: 100, Flush: "each", RChunk: 100, Pause: true})
 	add(c19Scn{Streams: "bidi1", Bytes: 1200, Flush: "none", Buf: 512, Pause: true})
+	for _, s := range c19WindowScenarios(quick) {
+		add(s)
+	}
 	if !quick {
 		// long runs (hundreds of datagrams: tiny windows, byte-wise readers)
 		for _, st := range []string{"uni1", "bidi1", "uni3"} {
@@ -556,12 +585,17 @@ func TestVerif_C19(t *testing.T) {
 		for _, s := range small {
 			isSmall[s] = true
 		}
+		window := c19WindowScenarios(c.Quick())
+		isWindow := map[c19Scn]bool{}
+		for _, s := range window {
+			isWindow[s] = true
+		}
 		// Deviation kinds used for placements of two or more deviations.
 		kindsMulti := []string{"drop", "dup3", "hold1", "late", "part"}
 		kAll := vx.Pick(c, 1, 2)
 		kSmall := vx.Pick(c, 2, 3)
 		pairMaxN := 30
-		c.Rule(fmt.Sprintf("fault enumeration: %d application scenarios (streams x bytes x write chunking x flush x read chunk x buffer sizes x pause-before-close, listed in c19Scenarios) on two real quic Endpoints with real TLS in a synctest bubble; per scenario the default run (deliver everything in order) plus (part k1) every single deviation from {drop, dup, dup3, hold1, hold3, late (timer first), part (4 s black hole)} at every datagram index 0..N+2 of the default run (both directions; N = largest datagram count of three default runs, measured by each shard process; cases are assigned to shards by content hash so that a +-1 disagreement on N cannot lose a case below the smallest measured N), (part dead) a permanent black hole at every index for the %d smallest scenarios, (part k2..) every placement of 2..k deviations from {drop, dup3, hold1, late, part} at increasing indices, k=%d for every scenario with N<=%d and k=%d for the smallest scenarios. After the last deviation the network is perfect. Non-trivial = all deviations of the case took effect and the run completed", len(all), len(small), kAll, pairMaxN, kSmall))
+		c.Rule(fmt.Sprintf("fault enumeration: %d application scenarios (streams x bytes x write chunking x flush x read chunk x buffer sizes {all three 512, stream buffers 512 with default connection window} x pause-before-close, listed in c19Scenarios) on two real quic Endpoints with real TLS in a synctest bubble; per scenario the default run (deliver everything in order) plus (part k1) every single deviation from {drop, dup, dup3, hold1, hold3, late (timer first), part (4 s black hole)} at every datagram index 0..N+2 of the default run (both directions; N = largest datagram count of three default runs, measured by each shard process; cases are assigned to shards by content hash so that a +-1 disagreement on N cannot lose a case below the smallest measured N), (part dead) a permanent black hole at every index for the %d smallest scenarios, (part k2..) every placement of 2..k deviations from {drop, dup3, hold1, late, part} at increasing indices, k=2 for the %d stream-window scenarios (c19WindowScenarios: the stream receive window is the only credit limit, transfer > 2 windows, reader draining a window per Read or in steps of 100; placements cover the data direction and the reverse path carrying ACK / MAX_STREAM_DATA packets alike), k=%d for every scenario with N<=%d and k=%d for the smallest scenarios. After the last deviation the network is perfect. Non-trivial = all deviations of the case took effect and the run completed", len(all), len(small), len(window), kAll, pairMaxN, kSmall))
 		c.Assume("timeouts are outside the property: HandshakeTimeout and MaxIdleTimeout are disabled on both endpoints; instead every application operation must complete (reads to io.EOF, Close()==nil) within 1 h of fake time and 4000 datagrams once the network delivers again")
 		c.Assume("packet-number skipping (the only randomness that changes packet structure) is moved out of reach white-box; connection IDs and TLS randomness only change values. Go select order inside an endpoint is not owned: oracles hold on every outcome")
 		c.Assume("Close()==nil is judged against the peer's qlog (packet_received STREAM frames covering every byte and the FIN) at the moment Close returns")
@@ -662,10 +696,11 @@ func TestVerif_C19(t *testing.T) {
 			partDone(part)
 		}
 		multi("k2-small", 2, small)
+		multi("k2-window", 2, window)
 		if kAll >= 2 {
 			var rest []c19Scn
 			for _, sc := range all {
-				if !isSmall[sc] && nOf[sc] <= pairMaxN {
+				if !isSmall[sc] && !isWindow[sc] && nOf[sc] <= pairMaxN {
 					rest = append(rest, sc)
 				}
 			}
